@@ -3,8 +3,10 @@ import NdnGen.C20
 /-  Line protocol for the client-configuration model (text = lowercase hex of ASCII, `-` = empty):
     `C20 conf <home> <exists> <files> <envT> <envP> <envM>`
         exists ::= . | hex,hex,…          files ::= . | file;file;…     file ::= <path>'>'<lines>
-        lines  ::= _ | line|line|…         line  ::= o | <key>=<value>    env ::= ~ | hex
+        lines  ::= _ | line|line|…         line  ::= hex (the physical line, `-` = empty)    env ::= ~ | hex
         answer `ok <transport> <pib> <tpm>` | `err <class>`
+    `C20 parse <lines>`                answer `ok _` | `ok <key>=<value>|…` (parser['DEFAULT'], in order) |
+                                       `err DuplicateOptionError|DuplicateSectionError|ParsingError|MissingSectionHeaderError`
     `C20 face <uri> <bracketOk 0|1>`   answer `ok unix <path>` | `ok tcp <host> <port>` | `ok udp <host or ~> <port>`
     `C20 kc <pib> <tpm>`               answer `ok <db> <tpmdir>`
     The platform table is the generated one (`Ndn.Gen.C20.platform home`). -/
@@ -15,24 +17,21 @@ def strOf (b : Bytes) : Str := b.map fun x => Char.ofNat x.toNat
 def hexOf (s : Str) : String := toHex (s.map fun c => UInt8.ofNat c.toNat)
 def pStr (s : String) : Option Str := (fromHex s).map strOf
 
-def pLine (s : String) : Option Line :=
-  if s == "o" then some .other
-  else match s.splitOn "=" with
-    | [k, v] => do pure (.kv (← pStr k) (← pStr v))
-    | _ => none
+def pLines (ls : String) : Option (List Str) :=
+  if ls == "_" then some [] else (ls.splitOn "|").mapM pStr
 
-def pFile (s : String) : Option (Str × List Line) :=
+def pFile (s : String) : Option (Str × List Str) :=
   match s.splitOn ">" with
   | [p, ls] => do
     let p ← pStr p
-    let ls ← if ls == "_" then some [] else (ls.splitOn "|").mapM pLine
+    let ls ← pLines ls
     pure (p, ls)
   | _ => none
 
 def pEnv (s : String) : Option (Option Str) :=
   if s == "~" then some none else (pStr s).map some
 
-def lookupFile (fs : List (Str × List Line)) (p : Str) : List Line :=
+def lookupFile (fs : List (Str × List Str)) (p : Str) : List Str :=
   match fs with
   | [] => []
   | (q, ls) :: r => if q = p then ls else lookupFile r p
@@ -53,6 +52,14 @@ def handle (args : List String) : String :=
       showExcept (fun c => hexOf c.transport ++ " " ++ hexOf c.pib ++ " " ++ hexOf c.tpm)
         (readClientConf (Ndn.Gen.C20.platform home) W)
     | _, _, _, _, _, _ => "bad-op"
+  | ["parse", ls] =>
+    match pLines ls with
+    | some ls =>
+      match parseConf ls with
+      | .ok [] => "ok _"
+      | .ok d => "ok " ++ "|".intercalate (d.map fun (k, v) => hexOf k ++ "=" ++ hexOf v)
+      | .error e => "err " ++ e.name
+    | none => "bad-op"
   | ["face", uri, b] =>
     match pStr uri, (if b == "0" then some false else if b == "1" then some true else none) with
     | some u, some b => showExcept showFace (defaultFace Ndn.Gen.C20.faceDefaults u b)
